@@ -516,4 +516,127 @@ def c14(report, rng, tier, findings):
         "every construction style reaches the same patched __new__ (checked by the correspondence over styles)"]
 
 
-HANDLERS = {'C20': c20, 'C08': c08, 'C14': c14}
+# ------------------------------------------------------------------------------------------- C07
+
+def c07_impl(case):
+    """Single-variable query over a logging ONE-SHOT iterator; a history of partial/full evaluations."""
+    from . import impl, surface
+    from entity_query_language import an, entity, let, symbolic_mode
+    impl.reset_library_state()
+    out = {'id': case['id']}
+    try:
+        o = surface.Oracle(case)
+        qual = {r[0][1] for r in o.rows()}           # object indices satisfying the condition (and the type)
+        out['qual'] = sorted(qual)
+    except Exception as e:
+        out['spec_exc'] = str(e)
+        return out
+    try:
+        b = impl.Built(case)
+        log = []
+        vid, cls, raw = case['vars'][0]
+
+        def one_shot():
+            for v in raw:
+                obj = b.decode(v)
+                log.append(v[1])
+                yield obj
+        with symbolic_mode():
+            x = let(b.classes[cls], one_shot())
+            b.vars[vid] = x
+            conds = [b.cond(c) for c in (case.get('cond') or [])]
+            q = an(entity(x, *conds))
+        steps = []
+        for k in case['hist']:
+            it = q.evaluate()
+            created = len(log)
+            res, per = [], []
+            if k != 0:
+                try:
+                    while k < 0 or len(res) < k:
+                        r = next(it)
+                        res.append(b.obj_index[id(r)])
+                        per.append(len(log))
+                except StopIteration:
+                    pass
+            at_last = len(log)
+            it.close()
+            steps.append({'created_pulls': created, 'res': res, 'per': per, 'after': len(log),
+                          'at_last': at_last})
+        out['steps'] = steps
+    except Exception as e:
+        out['exc'] = f'{type(e).__name__}: {e}'
+    finally:
+        impl.reset_library_state()
+    return out
+
+
+def c07(report, rng, tier, findings):
+    from . import gen, surface
+    n = n_cases(tier, 300, 4000)
+    cases = []
+    for i in range(n):
+        cfg = gen.Cfg(n_vars=(1, 1), n_objs=(3, 8), depth=2, subclasses=0.3, empty_domain=0.0)
+        case = gen.gen_case(rng, cfg, f'd{i}')
+        if rng.random() < 0.15:
+            case['cond'] = None                                  # condition-less query
+        vid, cls, raw = case['vars'][0]
+        all_objs = [('o', j) for j, _, _ in case['objs']]
+        raw = rng.sample(all_objs, len(all_objs))                 # distinct objects, mixed types
+        case['vars'] = [(vid, cls, raw)]
+        nh = rng.randint(1, 5 if tier == 'quick' else 8)
+        case['hist'] = [rng.choice((0, 1, 1, 2, 3, -1)) for _ in range(nh)]
+        cases.append(case)
+    impl_res = pmap(c07_impl, cases)
+    good = [(c, r) for c, r in zip(cases, impl_res) if 'spec_exc' not in r]
+    lines = run_driver([sexp(('iter', c['id'], ('dom',) + tuple(v[1] for v in c['vars'][0][2]),
+                              ('qual',) + tuple(r['qual']), ('hist',) + tuple(c['hist']))) for c, r in good])
+    report.rule = ("single-variable queries (random condition trees, also condition-less) whose domain is a logging ONE-SHOT "
+                   "generator over 3-8 distinct objects of mixed classes; histories of 1-5 (thorough 8) evaluations, each creating "
+                   "the iterator, taking 0/1/2/3 results (or all) and closing; compared with the model: pulls at creation (0), the "
+                   "pull-log length at the delivery of EVERY result, after close, and the results themselves; non-trivial = the "
+                   "history has a partial evaluation followed by another evaluation and the condition is not constant")
+    for (case, res), line in zip(good, lines):
+        report.evaluations += 1
+        if 'exc' in res:
+            report.violations.append((f'implementation raised {res["exc"]}', {'what': res['exc'], 'case': case,
+                                                                              'case_sexp': surface.case_sexp(case)}))
+            continue
+        if line.startswith('ERR'):
+            raise HarnessError('driver: ' + line)
+        model = line.split('\t')[1].split('|')
+        h = case['hist']
+        nq = len(res['qual'])
+        dom_n = len(case['vars'][0][2])
+        if any(0 < k for k in h[:-1]) and 0 < nq < dom_n:
+            report.nontrivial.add(surface.case_sexp({**case, 'id': 'x'}) + str(h))
+        report.add_sample({'query': surface.case_sexp(case)[:600], 'history': h})
+        report.count('hist_len_%d' % len(h))
+        for si, (st, m) in enumerate(zip(res['steps'], model)):
+            report.traces += 1
+            m_res, m_per, m_after = m.split('/')
+            exp_res = [int(x) for x in m_res.split(',') if x]
+            exp_per = [int(x) for x in m_per.split(',') if x]
+            created_before = res['steps'][si - 1]['after'] if si else 0
+            what = None
+            if st['created_pulls'] != created_before:
+                what = (f'evaluation {si + 1}: creating the result iterator pulled {st["created_pulls"] - created_before} '
+                        f'elements of the one-shot domain before any result was requested')
+            elif st['res'] != exp_res:
+                what = f'evaluation {si + 1} (take {h[si]}): results {st["res"]}, expected {exp_res}'
+            elif st['per'] != exp_per:
+                what = (f'evaluation {si + 1} (take {h[si]}): pull-log length at each delivered result {st["per"]}, '
+                        f'expected {exp_per} (the prefix ending at the k-th qualifying element)')
+            elif st['after'] != int(m_after):
+                what = f'evaluation {si + 1}: {st["after"]} elements pulled after close, expected {m_after}'
+            if what:
+                report.violations.append((what, {'what': what, 'case': case, 'case_sexp': surface.case_sexp(case),
+                                                 'history': h, 'observed': res['steps'], 'expected': model}))
+                break
+    return ['EqlModel.Props.C07'], [
+        "CPython suspends a generator at yield and stops it at close() (the CPS reading of generators is trusted; the logging "
+        "iterator measures it)",
+        "single-variable queries; the condition is represented in the model by its truth on each object (c01 / cond_at)"]
+
+
+HANDLERS = {'C20': c20, 'C08': c08, 'C14': c14, 'C07': c07}
